@@ -643,6 +643,35 @@ pub fn run_tower(prop: Prop, h: &History, st: &mut Stats) -> Outcome {
                         );
                     }
                 }
+                // Without antialiasing only the first of the four sample rows of a pixel row is
+                // used: a pixel it paints has non-zero antialiased coverage, and a pixel that is
+                // fully covered with antialiasing is painted. A pixel that violates this was
+                // written although the shape does not cover it (or the other way round).
+                if let (Some(cov), Some(o)) = (&cov, get_opts(op)) {
+                    if !o.aa && matches!(op, Op::Fill { .. } | Op::Stroke { .. } | Op::FillRect { .. }) {
+                        let mut op_aa = op.clone();
+                        set_opts(&mut op_aa, |x| x.aa = true);
+                        match mk::guarded(budget, || coverage_of(&op_aa, &ctm, w, hh)) {
+                            Ok(Some(gray)) => {
+                                st.count("aa_mode_consistency_checked");
+                                for p in 0..n {
+                                    if (cov[p] != 0 && gray[p] == 0) || (gray[p] == 255 && cov[p] != 255) {
+                                        return viol(
+                                            if prop == Prop::C02 { "c02.aa-modes-inconsistent" } else { "c03.aa-modes-inconsistent" },
+                                            i,
+                                            format!("{}: pixel ({},{}) has coverage {} without antialiasing but {} with antialiasing", op.name(), p as i32 % w, p as i32 / w, cov[p], gray[p]),
+                                        );
+                                    }
+                                }
+                            }
+                            Ok(None) => {}
+                            Err(pi) => {
+                                st.abort(&panic_class(&pi));
+                                return Outcome::Aborted(format!("canonical coverage: {}", panic_desc(&pi)));
+                            }
+                        }
+                    }
+                }
                 if let Some(cov) = &cov {
                     checked_draws += 1;
                     for p in 0..n {
